@@ -30,7 +30,7 @@ LEVELS = {
     },
     'C05': {
         'category': 'other',
-        'text': 'Deductive part: the stylesheet tokenizer functions that recognise numbers, units, colours and the forced dash are under contract and proved (consume_number accepts exactly the documented number shapes, tokens span what they consumed). Complete finite-domain clauses: every colour channel 0..255 through to_hex/to_short_hex, every 1/2/3-digit colour form. The printed property line (units, aliases, !important, separators) is a bounded stand-in against an executable reading of the statement.',
+        'text': 'Deductive part: the stylesheet tokenizer functions that recognise numbers, units, colours and the forced dash are under contract and proved (consume_number accepts exactly the documented number shapes, tokens span what they consumed); the stylesheet parser terminates and raises only its own error. Complete finite-domain clauses: every colour channel 0..255 through to_hex/to_short_hex, every 1/2/3-digit colour form. The printed property line (units, aliases, !important, separators) is a bounded stand-in against an executable reading of the statement.',
         'design_ref': 'DESIGN.md section 7 (C05)',
         'note': 'Trusted: pyvc encoding; parse_color contract (decided by the finite-domain clause for 1-3 digits, bounded for 6); CPython for enumeration.',
         'technique': TECH + '; finite-domain enumeration of colour channels/forms; bounded stand-in: exhaustive value sequences up to 3 values x syntaxes x options',
@@ -78,11 +78,11 @@ LEVELS = {
     },
     'C01': {
         'category': 'other',
-        'text': 'Proved for all inputs: the implicit-name table of the statement (resolve_implicit_tag against li/tr/td/option/span/div for an arbitrary configured inline list; get_parent_element returns the closest element ancestor) and the markup tokenizer that feeds the parser. The element tree denoted by > + ^ groups and *N is built by mutually recursive list-splicing code; that it equals the denoted tree is decided by a bounded stand-in: every operator skeleton up to 4-5 elements printed FROM the tree, expanded under six configurations and compared by an independent tag parser; random skeletons up to 40 elements.',
+        'text': 'Proved for all inputs: the implicit-name table of the statement (resolve_implicit_tag against li/tr/td/option/span/div for an arbitrary configured inline list; get_parent_element returns the closest element ancestor) and the markup tokenizer that feeds the parser; the parser itself is proved to terminate and to build a fresh tree without run-time errors (children are attached only by the statement loop, a climb below the top level is clamped by the len(stack) test). The element tree denoted by > + ^ groups and *N is built by mutually recursive list-splicing code; that it equals the denoted tree is decided by a bounded stand-in: every operator skeleton up to 4-5 elements printed FROM the tree, expanded under six configurations and compared by an independent tag parser; random skeletons up to 40 elements.',
         'design_ref': 'DESIGN.md section 7 (C01)',
         'note': 'Trusted: CPython for the bounded part; the independent tag parser / executable spec of the bounded oracle.',
         'technique': TECH + '; bounded stand-in: exhaustive operator skeletons + random large trees',
-        'clauses': 'P: implicit_tag.resolve_implicit_tag, get_parent_element, abbreviation tokenizer; B: skeleton-exhaustive, implicit-name-table, climb-clamp, random-large.',
+        'clauses': 'P: implicit_tag.resolve_implicit_tag, get_parent_element, abbreviation tokenizer, markup parser (safety, termination); B: skeleton-exhaustive, implicit-name-table, climb-clamp, random-large.',
     },
     'C02': {
         'category': 'other',
@@ -110,11 +110,11 @@ LEVELS = {
     },
     'C07': {
         'category': 'other',
-        'text': 'Deductive part: both tokenizers raise only ScannerException with 0 <= pos <= len(input) (proved, shared with C18), Scanner.error builds the exception with the reported position. The rest of the pipeline (parser, converter, formatters, resolvers) is covered by a bounded stand-in: all strings up to length 3-4 over 20-character alphabets, prefixes and single-character mutations of every abbreviation in tests/README, x syntaxes x option sets, with a CPU-time guard standing in for termination.',
+        'text': 'Deductive part: both tokenizers raise only ScannerException with 0 <= pos <= len(input) (proved, shared with C18), Scanner.error builds the exception with the reported position. Both parsers (abbreviation/parser, css_abbreviation/parser, over token_scanner) are proved for every token list: every loop and the mutual recursion statements/group and consume_value/consume_arguments terminate (lexicographic measure on the tokens left), no IndexError/AttributeError/TypeError is possible, the only exception that escapes is TokenScannerException, and its position, when present, is the start of one of the tokens (which the tokenizer contract places inside the input). The rest of the pipeline (converter, formatters, resolvers) is covered by a bounded stand-in: all strings up to length 3-4 over 20-character alphabets, prefixes and single-character mutations of every abbreviation in tests/README, x syntaxes x option sets, with a CPU-time guard standing in for termination.',
         'design_ref': 'DESIGN.md section 7 (C07)',
         'note': 'Trusted: CPython for the bounded part; the independent tag parser / executable spec of the bounded oracle.',
         'technique': TECH + '; bounded stand-in: exhaustive short inputs + corpus prefixes/mutations x configurations',
-        'clauses': 'P: Scanner.error, both tokenizers; B: 13 clauses (markup/stylesheet exhaustive, prefixes, mutations, snippet names, random).',
+        'clauses': 'P: Scanner.error, both tokenizers, TokenScanner, markup parser (12 functions), stylesheet parser (5 functions); B: 13 clauses (markup/stylesheet exhaustive, prefixes, mutations, snippet names, random).',
     },
     'C08': {
         'category': 'other',
